@@ -298,7 +298,24 @@ def r5(ctx):
          'Close() unsubscribes to ignore a fault already in flight: a snapshot taken at Set() time delivers it anyway and a closed resurrector starts reconnecting')
   nt = prog.func(OBS, 'Observable.__Notify')
   t = U(nt.node).replace(' ', '')
-  ctx.ob('C09.R5', nt, 'delivery iterates a copy of the current subscribers', 'self._callbacks.copy()' in t and 'self._one_shot_callbacks,None' in t, '__Notify changed',
+  ok_nt = 'self._callbacks.copy()' in t and 'self._one_shot_callbacks,None' in t
+  if not ok_nt and 'self._callbacks.copy()' in t:
+    # the swap written as two statements: the one-shot set is taken into a local, the attribute is cleared, then the local is iterated
+    seq = []
+    for st_ in ast.walk(nt.node):
+      if isinstance(st_, ast.Assign) and len(st_.targets) == 1:
+        if U(st_.value) == 'self._one_shot_callbacks' and isinstance(st_.targets[0], ast.Name):
+          seq.append(('take', st_.targets[0].id, st_.lineno))
+        elif U(st_.targets[0]) == 'self._one_shot_callbacks' and U(st_.value) == 'None':
+          seq.append(('clear', None, st_.lineno))
+    takes = [x for x in seq if x[0] == 'take']
+    clears = [x for x in seq if x[0] == 'clear']
+    if len(takes) == 1 and len(clears) == 1 and takes[0][2] <= clears[0][2]:
+      its = [n_ for n_ in ast.walk(nt.node) if (isinstance(n_, ast.For) and U(n_.iter) == takes[0][1]) or (isinstance(n_, ast.comprehension) and U(n_.iter) == takes[0][1])]
+      its = [n_ for n_ in its if getattr(n_, 'lineno', clears[0][2] + 1) >= clears[0][2]]
+      direct = [n_ for n_ in ast.walk(nt.node) if isinstance(n_, (ast.For, ast.comprehension)) and 'self._one_shot_callbacks' in U(n_.iter)]
+      ok_nt = bool(its) and not direct
+  ctx.ob('C09.R5', nt, 'delivery iterates a copy of the current subscribers', ok_nt, '__Notify changed',
          'callbacks may (un)subscribe while being notified', nontrivial=False)
   un = prog.func(OBS, 'Observable.Unsubscribe')
   t = U(un.node).replace(' ', '')
